@@ -1060,3 +1060,65 @@ def _replay_merger_iter(inputs, ghost=None):
             break
     shutil.rmtree(d, ignore_errors=True)
     return r if viol else first
+
+
+@custom("cooler._reduce:CoolerCoarsener._aggregate")
+def _replay_coarsen_aggregate(inputs, ghost=None):
+    """two real coolers (fixed-width and variable-width bins, two chromosomes, every upper-triangle pixel present)
+    coarsened by the counter-model's factor (and by 2 and 3): every span's aggregate must be the group-by-sum of
+    its fine pixels under  new_id = new_chrom_offset[c] + (fine_id - old_chrom_offset[c]) div k.
+    The symbolic table of the counter-model is not rebuilt; its factor and path (fixed / variable) are kept."""
+    import os
+    import shutil
+    import tempfile
+    import numpy as np
+    import pandas as pd
+    import cooler
+    from cooler._reduce import CoolerCoarsener
+    g = ghost or {}
+    k0 = g.get("k")
+    ks = ([k0] if isinstance(k0, int) and 2 <= k0 <= 5 else []) + [2, 3]
+    fixed = bool(g.get("fixed", True))
+    d = tempfile.mkdtemp(prefix="pyvc_agg_")
+    if fixed:
+        tab = [("a", 10 * i, min(10 * (i + 1), 47)) for i in range(5)] + [("b", 10 * i, min(10 * (i + 1), 23)) for i in range(3)]
+    else:
+        tab = [("a", 0, 3), ("a", 3, 10), ("a", 10, 11), ("a", 11, 20), ("a", 20, 25), ("b", 0, 7), ("b", 7, 9), ("b", 9, 12)]
+    bins = pd.DataFrame(tab, columns=["chrom", "start", "end"])
+    n = len(bins)
+    rows = [(i, j, 1 + (3 * i + j) % 5) for i in range(n) for j in range(i, n)]
+    pix = pd.DataFrame(rows, columns=["bin1_id", "bin2_id", "count"])
+    p = os.path.join(d, "src.cool")
+    cooler.create_cooler(p, bins, pix)
+    old_off = [0, 5, 8]
+    out = {"inputs_used": {"path": "fixed" if fixed else "variable", "factors": ks, "bins": tab}}
+    viol = []
+    for k in ks:
+        new_off = [0, -(-5 // k), -(-5 // k) + -(-3 // k)]
+
+        def g_(b):
+            c = 0 if b < 5 else 1
+            return new_off[c] + (b - old_off[c]) // k
+        for chunksize in (1, 4, 10 ** 6):
+            try:
+                co = CoolerCoarsener(p, k, chunksize, ["count"], None, 1)
+                for lo, hi in zip(co.edges[:-1], co.edges[1:]):
+                    got = co._aggregate((int(lo), int(hi)))
+                    sub = pix.iloc[int(lo):int(hi)]
+                    exp = (pd.DataFrame({"bin1_id": [g_(b) for b in sub["bin1_id"]], "bin2_id": [g_(b) for b in sub["bin2_id"]],
+                                         "count": list(sub["count"])})
+                           .groupby(["bin1_id", "bin2_id"], sort=True)["count"].sum().reset_index())
+                    if not (list(got["bin1_id"]) == list(exp["bin1_id"]) and list(got["bin2_id"]) == list(exp["bin2_id"])
+                            and list(got["count"]) == list(exp["count"])):
+                        viol.append(f"factor {k}, span ({lo},{hi}): aggregate is not the block sum of its fine pixels "
+                                    f"(got {len(got)} records summing to {int(got['count'].sum())}, expected {len(exp)} summing to {int(exp['count'].sum())})")
+                        break
+            except Exception as e:
+                viol.append(f"factor {k}, chunksize {chunksize}: {type(e).__name__}: {e}")
+            if viol:
+                break
+        if viol:
+            break
+    shutil.rmtree(d, ignore_errors=True)
+    out.update(raised=None, violations=viol[:3], violates_contract=bool(viol))
+    return out
